@@ -124,6 +124,44 @@ macro_rules! parts {
     }};
 }
 
+/// "whatever the modes": the same oracle from states in which every mode, the scroll
+/// region and the cursor visibility are away from their defaults
+fn alpha_modes(cfg: &Cfg) -> Vec<Op> {
+    let rows = cfg.rows as u32;
+    vec![
+        t("bcd"),
+        t("a"),
+        c(crlf()),
+        c(Cup(Some(99), Some(99))),
+        c(Cup(Some(2), Some(2))),
+        c(Cuu(None)),
+        c(Cub(None)),
+        c(Decstbm(Some(2), Some(rows))),
+        c(Decstbm(Some(1), Some(rows.saturating_sub(1).max(2)))),
+        c(DecSet(vec![6])),
+        c(DecRst(vec![25])),
+        c(DecRst(vec![7])),
+        c(Seq(vec![Sm(vec![4]), Sm(vec![20]), DecSet(vec![1]), Desig(0, true)])),
+        c(sgr1(41)),
+    ]
+}
+
+fn modes_part<'a>(tier: Tier, sys: &'a Sys) -> Part<'a, Sys> {
+    Part {
+        name: "modes-and-region-dont-matter",
+        sys,
+        cfgs: match tier {
+            Tier::Quick => cfgs(&[(3, 3)], &[None]),
+            Tier::Thorough => cfgs(&[(3, 3), (4, 3), (2, 4)], &[None]),
+        },
+        alphabet: &alpha_modes,
+        depth: tier.pick(5, 7),
+        seconds: tier.pick(20.0, 2400.0),
+        validated: true,
+        nontrivial: Some("resizes_with_content"),
+    }
+}
+
 fn make_sys(_tier: Tier) -> Sys {
     Sys {
         sizes: S4.to_vec(),
@@ -136,10 +174,13 @@ pub fn run(ctx: &Ctx) -> Report {
     let sys = make_sys(ctx.tier);
     let p = parts!(ctx.tier, &sys);
     run_part(ctx, &mut rep, &p);
-    let n = rep.counters.get("seed-bfs+resize-chains.resizes_checked").copied().unwrap_or(0);
+    let sys1 = Sys { sizes: S4.to_vec(), chain: 1 };
+    run_part(ctx, &mut rep, &modes_part(ctx.tier, &sys1));
+    let n = rep.counters.get("seed-bfs+resize-chains.resizes_checked").copied().unwrap_or(0)
+        + rep.counters.get("modes-and-region-dont-matter.resizes_checked").copied().unwrap_or(0);
     rep.evaluations += n;
     rep.traces_validated = n;
-    rep.rule = "seed states = all states reachable by the editing alphabet (texts incl. a double-width and a zero-width character, CRLF, cursor moves, EL/ECH/DCH/ICH/IL/DL/ED1, SGR, RI, DECSC) up to the depth bound on unlimited-scrollback primary screens; from every seed every chain of <=2 resizes over the 10 sizes 1x1..4x3; each single resize is judged by the relational oracle on logical lines (rows joined on wrap marks, cells incl. pens, trailing default blanks ignored); non-trivial = resizes of a non-empty buffer".into();
+    rep.rule = "seed states = all states reachable by the editing alphabet (texts incl. a double-width and a zero-width character, CRLF, cursor moves, EL/ECH/DCH/ICH/IL/DL/ED1, SGR, RI, DECSC) up to the depth bound on unlimited-scrollback primary screens; from every seed every chain of <=2 resizes over the 10 sizes 1x1..4x3; each single resize is judged by the relational oracle on logical lines (rows joined on wrap marks, cells incl. pens, trailing default blanks ignored); non-trivial = resizes of a non-empty buffer; second part: the same from states with scroll regions, origin mode, hidden cursor, auto-wrap off, insert / new-line / cursor-key modes and a drawing charset (14 ops, 3x3, every single resize)".into();
     rep.assumptions = vec![
         "primary screen, unlimited scrollback (as the statement requires)".into(),
         "'on a character of the text' = cursor offset inside the trimmed logical line".into(),
@@ -150,6 +191,10 @@ pub fn run(ctx: &Ctx) -> Report {
 pub fn replay(ctx: &Ctx, v: &Value) -> bool {
     let tier = if v["tier"] == "thorough" { Tier::Thorough } else { Tier::Quick };
     let sys = make_sys(tier);
+    if v["part"] == "modes-and-region-dont-matter" {
+        let sys1 = Sys { sizes: S4.to_vec(), chain: 1 };
+        return replay_part(ctx, &modes_part(tier, &sys1), v);
+    }
     let p = parts!(tier, &sys);
     replay_part(ctx, &p, v)
 }
